@@ -184,6 +184,32 @@ def reuse_mutate_cases(dss, configs, schemes, rng, flags=(1,), every=None, env="
     return out
 
 
+MIXEDMAG = [([0, 16384, 2, 0, 16384, 2], [2, 2, 0, 2, 2, 0], 16384), ([0, 16384, 16384, 0, 3, 1], [16384, 16384, 0, 2, 2, 0], 16384),
+            ([0, 4, 2, 0, 1000000, 2], [2, 2, 0, 2, 2, 0], 4), ([0, 1000000, 3, 0, 2, 1], [1, 1, 0, 1, 1, 0], 1)]
+QUARTER = ([0, 4, 1, 0, 4, 1], [1, 1, 0, 1, 1, 0], 4)      # unifying, p = 1/4: ties are cheap
+
+
+def reuse_scheme_cases(dss, configs, schemes, rng, flags=(1,), every=None, env="nocplex"):
+    """the SAME dataset and algorithm objects first serve a positive multiple of the scheme (or another scheme), whose
+    score is read; then the measured run"""
+    out = []
+    for ci, cfg in enumerate(configs):
+        stride = (every or {}).get(cfg, 1)
+        e = "standin" if cfg in algorun.NEEDS_CPLEX else env
+        for k, D in enumerate(dss):
+            if k % stride:
+                continue
+            B, T, u = schemes[(k + ci) % len(schemes)]
+            sch0 = ([2 * b for b in B], [2 * t for t in T], u) if k % 3 else schemes[(k + ci + 1) % len(schemes)]
+            for f in flags:
+                if cfg == "ExactCplex(opt)" and f == 0:
+                    continue
+                out.append({"D": D, "naming": ["ints", "letters"][k % 2], "sch": [list(B), list(T), u], "cfg": cfg,
+                            "flag": f, "env": e, "kseed": k, "reuse": {"kind": "scheme", "sch0": [list(sch0[0]),
+                                                                                               list(sch0[1]), sch0[2]]}})
+    return out
+
+
 def reuse_other_cases(dss, configs, schemes, rng, flags=(1,), every=None, env="nocplex"):
     """the SAME algorithm object first serves another (dataset, scheme) whose score is read, then the measured run"""
     out = []
